@@ -228,6 +228,7 @@ type Cmd struct {
 	Pos    []string          // positional args
 	KV     map[string]string // key=value args
 	Multi  map[string][]string
+	Rec    string // recorded observation line (frozen replay)
 }
 
 func parseLine(no int, raw string) *Cmd {
